@@ -50,6 +50,14 @@ class C02(KeyCheck):
             # the same after copies and flips of the payloads
             out.append(prog[:8] + [["copy", 2, None, None, [], None, None], ["copy", 4, None, None, [], None, None], ["set", 3, [["CKA_WRAP_WITH_TRUSTED", False]], None, None]] +
                        [["wrap", p_, wi, want] for p_ in (2, 3, 4, 6, 7) for wi in (0, 1) for want in (False, True)])
+            # copies whose template tries to drop a protection (WRAP_WITH_TRUSTED false, EXTRACTABLE true, SENSITIVE false), then wraps of those copies
+            drops = [[["CKA_WRAP_WITH_TRUSTED", False]], [["CKA_WRAP_WITH_TRUSTED", False], ["CKA_DERIVE", True]]]
+            out.append(prog[:8] + [["copy", p_, None, None, d_, None, None] for p_ in (2, 3, 4) for d_ in drops] + [["copy", 4, False, True, [], None, None]] +
+                       [["wrap", p_, wi, want] for p_ in range(6, 13) for wi in (0, 1) for want in (False,)])
+            # concatenation derives from protected bases with every data length / requested length shape
+            out.append(prog[:8] + [["set", 3, [["CKA_EXTRACTABLE", False]], None, None]] +
+                       [["derive", mech_, base_, oi_, False, True, [], None] for mech_ in ("CKM_CONCATENATE_BASE_AND_DATA", "CKM_CONCATENATE_DATA_AND_BASE")
+                        for base_ in (3, 4) for oi_ in range(12)])
         return out
 
     def extra(self, ctx, tier, shard, nshards):
